@@ -51,7 +51,8 @@ class World:
 
     def __init__(self, rng, *, p_rx=0.02, p_tx=0.05, p_ctrl=0.0, nxt_delay=(0, 0, 0, 1, 3), throttle=None,
                  ctrl=None, abort_cmd=0.0, abort_tx=0.0, rx_kind="mixed", tx_len=(1, 2, 3, 4, 9),
-                 ctrl_fields=None, settle=0, utmi_abandon=0.0, freeze_at=None):
+                 ctrl_fields=None, settle=0, utmi_abandon=0.0, freeze_at=None,
+                 p_revert=0.0, revert_k=(1, 2, 3, 4, 5, 6, 8), p_tx_after=0.0, tx_after=(0, 1, 2, 3, 4, 5, 6, 8)):
         self.rng = rng
         self.p_rx, self.p_tx, self.p_ctrl = p_rx, p_tx, p_ctrl
         self.nxt_delay = nxt_delay
@@ -64,6 +65,10 @@ class World:
                                            "dm_pulldown", "id_pullup", "chrg_vbus", "dischrg_vbus"]
         self.settle = settle          # cycles without a new transmission after a control change
         self.utmi_abandon = utmi_abandon
+        # directed: a control change is undone after k cycles (while its register write is still starting / on the bus),
+        # and a transmission is requested a few cycles after a change
+        self.p_revert, self.revert_k, self.p_tx_after, self.tx_after = p_revert, revert_k, p_tx_after, tx_after
+        self.revert = None; self.force_tx = None
         self.freeze_at = freeze_at    # from this cycle on: no new control changes, transmissions or PHY-initiated bursts
         # PHY
         self.state = "idle"; self.wait = 0; self.addr = None; self.dir = 0
@@ -173,10 +178,16 @@ class World:
                 self.pkt = None
                 return 0, rng.randrange(256)
             return 1, self.pkt[self.idx]
-        if self.quiet > 0:
+        forced = False
+        if self.force_tx is not None:
+            if self.force_tx == 0:
+                forced = True; self.force_tx = None
+            else:
+                self.force_tx -= 1
+        if self.quiet > 0 and not forced:
             self.quiet -= 1
             return 0, 0
-        if rng.random() < self.p_tx:
+        if forced or rng.random() < self.p_tx:
             n = rng.choice(self.tx_len)
             pid = rng.choice([0xC3, 0x4B, 0xD2, 0x5A, 0x1E, 0x69, rng.randrange(256)])
             self.pkt = [pid] + [rng.randrange(256) for _ in range(n - 1)]
@@ -191,8 +202,17 @@ class World:
             self.p_ctrl = self.p_tx = self.p_rx = 0.0; self.abort_cmd = self.abort_tx = 0.0
         if self.p_ctrl and self.pkt is None and rng.random() < self.p_ctrl:
             f = rng.choice(self.ctrl_fields)
+            old = self.ctrl[f]
             self.ctrl[f] = rng.randrange(4 if f in ("xcvr_select", "op_mode") else 2)
             self.quiet = max(self.quiet, self.settle)
+            if self.p_revert and rng.random() < self.p_revert:
+                self.revert = [f, old, rng.choice(self.revert_k)]
+            if self.p_tx_after and rng.random() < self.p_tx_after:
+                self.force_tx = rng.choice(self.tx_after) + (self.revert[2] if self.revert and rng.random() < 0.7 else 0)
+        elif self.revert is not None:
+            self.revert[2] -= 1
+            if self.revert[2] <= 0:
+                self.ctrl[self.revert[0]] = self.revert[1]; self.revert = None
         d, nxt, data = self._phy(prev)
         self.dir = d
         v, b = self._utmi(prev)
